@@ -7,6 +7,7 @@ import warnings
 warnings.simplefilter('ignore')
 import calendar
 import collections
+import copy
 import datetime
 import multiprocessing
 import os
@@ -234,12 +235,22 @@ def build(case, scratch):
     return m, want
 
 
-def add_signatures(m, cfg):
+def observe(m):
+    """look at a message in every way the API offers: observations must leave no trace in what later operations and exports yield"""
+    bytes(m), str(m), m.message, m.type, m.is_signed, m.is_compressed, m.is_encrypted, m.filename, list(m.signatures), set(m.issuers), set(m.signers), list(m)
+    copy.copy(m)
+
+
+def add_signatures(m, cfg, observed=False):
     added = []
+    if observed:
+        observe(m)
     for name, dt in cfg:
         sig = signer(name)['key'].sign(m, created=T0 + timedelta(seconds=dt))
         m |= sig
         added.append(bytes(sig))
+        if observed:
+            observe(m)
     return added
 
 
@@ -357,7 +368,7 @@ def run_case(case):
             return case, fails, obs, 'refused'
         cfg = SIGNER_CONFIGS[case['signers']]
         if case['kind'] != 'encrypted':
-            added = add_signatures(m, cfg)
+            added = add_signatures(m, cfg, observed=bool(case['id'] % 2))          # every other case: the message is looked at after every step
             raw = bytes(m)
             check_plain_export(raw, case, want, added, fails, obs)
             if 'input' in want and isinstance(want['input'], str) and want['format'] != 'b' and m.message != want['input']:
